@@ -19,7 +19,8 @@ TUS = [  # (translation unit, [(qualified-name regex of the enclosing record, Le
     ("lib/BuildSystem/BuildNode.cpp", [("BuildNode", "buildNode")]),
     ("lib/BuildSystem/BuildSystem.cpp", [("ClangShellCommand", "clangShellCommand"),
                                          ("SwiftCompilerShellCommand", "swiftCompilerShellCommand"),
-                                         ("SymlinkCommand", "symlinkCommand")]),
+                                         ("SymlinkCommand", "symlinkCommand"),
+                                         ("SharedLibraryShellCommand", "sharedLibraryShellCommand")]),
 ]
 CLS_OF_BASE = {"Command": "command", "ExternalCommand": "externalCommand", "ShellCommand": "shellCommand"}
 STRIP_CASTS = {"NoOp", "LValueToRValue", "UncheckedDerivedToBase", "DerivedToBase", "ConstructorConversion"}
